@@ -18,9 +18,10 @@
 EXTENDS Naturals, Sequences, FiniteSets, FiniteSetsExt, TLC, Json
 CONSTANTS M, S,           \* numbers of mutations / samples (ids 1..M, 1..S; the harness maps them to unsorted names)
           Cells,          \* admissible cell contents: set of sequences over 0..2
+          FixedTabs,      \* {} : every table over M x S; otherwise exactly these tables (large tables given by the harness)
           Dump
 VARIABLE tab
-Init == tab \in [(1..M) \X (1..S) -> Cells]
+Init == tab \in (IF FixedTabs = {} THEN [(1..M) \X (1..S) -> Cells] ELSE FixedTabs)
 Next == UNCHANGED tab
 Rows(m, s) == tab[<<m, s>>]
 Usable(m, s) == SelectSeq(Rows(m, s), LAMBDA r : r > 0)
